@@ -1,5 +1,6 @@
 #!/usr/bin/env python3
-"""Regenerates /verif/MANIFEST.json from the table below (one entry per claimed property)."""
+"""Regenerates /verif/MANIFEST.json from tools/manifest.d/Cxx.json and /verif/known_findings.json from
+tools/findings.d/Cxx.json (both generated files are committed; nothing is generated at check time)."""
 import json
 import pathlib
 
@@ -7,41 +8,33 @@ V = pathlib.Path(__file__).resolve().parents[1]
 props = [json.loads(l) for l in (V / "properties.jsonl").read_text().splitlines() if l.strip()]
 
 TLC_NOTE = ("Trusted: TLC 1.8 and the TLA+ CommunityModules (Json/IOUtils), the Python harness's abstraction pair alpha/gamma "
-            "(small, total, self-checked at the start of a run), CPython. ")
-
-CHECKS = {
-    "C11": dict(
-        technique="TLA+ spec (Namespace.tla: Ref nested dict vs Alg transcription of _namespace.py) model-checked by TLC; spec->code replay of every TLC state x operation; code->spec TLC validation of recorded random histories",
-        text=("TLC explores every history of set/del/pop/update operations up to the bound over a universe with clash names, dict, list, tuple and "
-              "namespace values and checks that the implementation-shaped Alg layer equals the reference nested dictionary on every operation in "
-              "every reachable state (outside the recorded dict deviation). Every emitted state is rebuilt as a real Namespace, operations are executed "
-              "on it, and TLC validates each recorded (pre, call, result, post) step and every observer's answers against the spec; seeded random "
-              "histories of up to 40 steps with more names and deeper keys are validated the same way. Model checking is the right level because the "
-              "property quantifies over histories of a small sequential object whose abstract state is finite and fully observable."),
-        design="4 (C11), 3.4",
-        note=TLC_NOTE + "Insertion order and exception classes are outside the verdict; leaf values come from a 15-value vocabulary."),
-}
-
+            "(small, total, self-checked at the start of a run), CPython and the third-party libraries jsonargparse builds on. ")
 NOT_YET = "check not built yet in this session (construction order in DESIGN.md section 8); will be claimed once its spec and conformance harness exist"
+NA = {}  # property id -> reason, for properties that are deliberately not claimed
+na_file = V / "tools" / "not_applicable.json"
+if na_file.exists():
+    NA = json.loads(na_file.read_text())
 
 checks, na = [], []
 for p in props:
     pid = p["id"]
-    c = CHECKS.get(pid)
-    if not c:
-        na.append({"property_id": pid, "reason": NOT_YET})
+    f = V / "tools" / "manifest.d" / f"{pid}.json"
+    if not f.exists() or pid in NA:
+        na.append({"property_id": pid, "reason": NA.get(pid, NOT_YET)})
         continue
-    checks.append({
+    c = json.loads(f.read_text())
+    entry = {
         "property_id": pid,
         "quick_cmd": f"./check {pid} quick",
         "thorough_cmd": f"./check {pid} thorough",
         "evidence_file": f"/verif/evidence/{pid}.json",
         "replay_cmd_template": f"./check {pid} --replay {{path}}",
         "engine": "tlc+conformance",
-        "level_claimed": {"category": "model_checking", "text": c["text"], "design_ref": "DESIGN.md section " + c["design"]},
-        "level_note": c["note"],
+        "level_claimed": {"category": c.get("level", "model_checking"), "text": c["text"], "design_ref": "DESIGN.md section " + c["design"]},
+        "level_note": TLC_NOTE + c["note"],
         "technique": c["technique"],
-    })
+    }
+    checks.append(entry)
 
 hooks_commits = []
 hc = V / "tools" / "hook_commits.txt"
@@ -67,4 +60,14 @@ manifest = {
     "not_applicable": na,
 }
 (V / "MANIFEST.json").write_text(json.dumps(manifest, indent=1) + "\n")
-print("claimed:", [c["property_id"] for c in checks], "not claimed:", len(na))
+
+findings = []
+for f in sorted((V / "tools" / "findings.d").glob("*.json")):
+    findings += json.loads(f.read_text())
+kf = {"_comment": "Genuine defects of the pinned tree that are recorded rather than repaired. status=known: the check prints KNOWN-FINDING and exits 0 "
+                  "when it re-observes exactly this case; status=fixed ('fixed: property=<id> <commit> <what failed>'): repaired by the named fix: commit, "
+                  "suppresses nothing. Keys are matched exactly, or as a prefix when they end with '*'. Generated from tools/findings.d by tools/gen_manifest.py "
+                  "and committed; never written at run time.",
+      "findings": findings}
+(V / "known_findings.json").write_text(json.dumps(kf, indent=1) + "\n")
+print("claimed:", [c["property_id"] for c in checks], "not claimed:", [x["property_id"] for x in na], "findings:", len(findings))
